@@ -1,8 +1,280 @@
 import PyresampleModel.Model.C10
+import PyresampleModel.Props.C18
 
 /-
-  C10 — property theorems (stub: none yet).
+  C10 — property theorems: slicing commutes with coordinates, composes, records its offset;
+  split ∘ concat = id in both member orders.
 -/
 namespace PyresampleModel.C10
+open PyresampleModel.Grid PyresampleModel.C18
+
+theorem aux_indices_le (s : PySlice) (n : Nat) : (s.indices n).1 ≤ n ∧ (s.indices n).2 ≤ n := by
+  unfold PySlice.indices adjustIndex
+  constructor
+  · cases s.start with
+    | none => simp
+    | some i => simp only; split_ifs <;> omega
+  · cases s.stop with
+    | none => simp
+    | some i => simp only; split_ifs <;> omega
+
+/-- what `__getitem__` returns, spelled out -/
+theorem sliceArea_some {a a' : Area} {ys xs : PySlice} (h : sliceArea a ys xs = some a') :
+    (ys.indices a.g.h).1 < (ys.indices a.g.h).2 ∧ (xs.indices a.g.w).1 < (xs.indices a.g.w).2 ∧
+    a'.g.w = (xs.indices a.g.w).2 - (xs.indices a.g.w).1 ∧
+    a'.g.h = (ys.indices a.g.h).2 - (ys.indices a.g.h).1 ∧
+    a'.off = (a.off.1 + (ys.indices a.g.h).1, a.off.2 + (xs.indices a.g.w).1) ∧
+    a'.g.x0 = a.g.uplx + (((xs.indices a.g.w).1 : Rat) - 1/2) * a.g.dx ∧
+    a'.g.x1 = a.g.uplx + (((xs.indices a.g.w).2 : Rat) - 1/2) * a.g.dx ∧
+    a'.g.y0 = a.g.uply - (((ys.indices a.g.h).2 : Rat) - 1/2) * a.g.dy ∧
+    a'.g.y1 = a.g.uply - (((ys.indices a.g.h).1 : Rat) - 1/2) * a.g.dy := by
+  unfold sliceArea at h
+  simp only at h
+  split at h
+  · rename_i hv
+    simp only [Option.some.injEq] at h
+    subst h
+    exact ⟨hv.1, hv.2, rfl, rfl, rfl, rfl, rfl, rfl, rfl⟩
+  · simp at h
+
+/-- **shape equals numpy's** -/
+theorem slice_shape {a a' : Area} {ys xs : PySlice} (h : sliceArea a ys xs = some a') :
+    a'.g.w = xs.len a.g.w ∧ a'.g.h = ys.len a.g.h := by
+  obtain ⟨_, _, hw, hh, _⟩ := sliceArea_some h
+  simp only [PySlice.len]
+  exact ⟨hw, hh⟩
+
+/-- pixel sizes are unchanged by slicing -/
+theorem slice_dx {a a' : Area} {ys xs : PySlice} (h : sliceArea a ys xs = some a') :
+    a'.g.dx = a.g.dx ∧ a'.g.dy = a.g.dy := by
+  obtain ⟨hy, hx, hw, hh, _, h0, h1, h2, h3⟩ := sliceArea_some h
+  have hwq : ((a'.g.w : Nat) : Rat) = ((xs.indices a.g.w).2 : Rat) - ((xs.indices a.g.w).1 : Rat) := by
+    rw [hw, Nat.cast_sub hx.le]
+  have hhq : ((a'.g.h : Nat) : Rat) = ((ys.indices a.g.h).2 : Rat) - ((ys.indices a.g.h).1 : Rat) := by
+    rw [hh, Nat.cast_sub hy.le]
+  have hxpos : (0 : Rat) < ((xs.indices a.g.w).2 : Rat) - ((xs.indices a.g.w).1 : Rat) := by
+    have : ((xs.indices a.g.w).1 : Rat) < ((xs.indices a.g.w).2 : Rat) := by exact_mod_cast hx
+    linarith
+  have hypos : (0 : Rat) < ((ys.indices a.g.h).2 : Rat) - ((ys.indices a.g.h).1 : Rat) := by
+    have : ((ys.indices a.g.h).1 : Rat) < ((ys.indices a.g.h).2 : Rat) := by exact_mod_cast hy
+    linarith
+  constructor
+  · show (a'.g.x1 - a'.g.x0) / a'.g.w = a.g.dx
+    rw [h0, h1, hwq]; field_simp; ring
+  · show (a'.g.y1 - a'.g.y0) / a'.g.h = a.g.dy
+    rw [h2, h3, hhq]; field_simp; ring
+
+/-- **coordinates commute with slicing**: pixel (i, j) of `area[ys, xs]` sits where pixel
+(lo_y + i, lo_x + j) of `area` sits -/
+theorem slice_coords {a a' : Area} {ys xs : PySlice} (h : sliceArea a ys xs = some a') (i j : Rat) :
+    a'.g.projX j = a.g.projX ((xs.indices a.g.w).1 + j) ∧
+    a'.g.projY i = a.g.projY ((ys.indices a.g.h).1 + i) := by
+  obtain ⟨hdx, hdy⟩ := slice_dx h
+  obtain ⟨_, _, _, _, _, h0, _, _, h3⟩ := sliceArea_some h
+  constructor
+  · simp only [Grid.projX, Grid.uplx, hdx, h0]; ring
+  · simp only [Grid.projY, Grid.uply, hdy, h3]; ring
+
+
+/-- **the coordinate vectors of the sliced area are the same slice of the parent's vectors** -/
+theorem slice_xvec {a a' : Area} {ys xs : PySlice} (h : sliceArea a ys xs = some a') :
+    xvec a'.g = xs.apply (xvec a.g) ∧ yvec a'.g = ys.apply (yvec a.g) := by
+  obtain ⟨hy, hx, hw, hh, _⟩ := sliceArea_some h
+  have hbx := aux_indices_le xs a.g.w
+  have hby := aux_indices_le ys a.g.h
+  constructor
+  · apply List.ext_getElem?
+    intro k
+    simp only [xvec, PySlice.apply, List.length_map, List.length_range, List.getElem?_map, List.getElem?_take,
+      List.getElem?_drop]
+    by_cases hk : k < a'.g.w
+    · have h1 : k < (xs.indices a.g.w).2 - (xs.indices a.g.w).1 := by omega
+      have h2 : (xs.indices a.g.w).1 + k < a.g.w := by omega
+      rw [List.getElem?_range hk, if_pos h1, List.getElem?_range h2]
+      simp only [Option.map_some]
+      rw [(slice_coords h 0 k).1]; push_cast; rfl
+    · have h1 : ¬ k < (xs.indices a.g.w).2 - (xs.indices a.g.w).1 := by omega
+      rw [List.getElem?_eq_none (by simp; omega), if_neg h1]; rfl
+  · apply List.ext_getElem?
+    intro k
+    simp only [yvec, PySlice.apply, List.length_map, List.length_range, List.getElem?_map, List.getElem?_take,
+      List.getElem?_drop]
+    by_cases hk : k < a'.g.h
+    · have h1 : k < (ys.indices a.g.h).2 - (ys.indices a.g.h).1 := by omega
+      have h2 : (ys.indices a.g.h).1 + k < a.g.h := by omega
+      rw [List.getElem?_range hk, if_pos h1, List.getElem?_range h2]
+      simp only [Option.map_some]
+      rw [(slice_coords h k 0).2]; push_cast; rfl
+    · have h1 : ¬ k < (ys.indices a.g.h).2 - (ys.indices a.g.h).1 := by omega
+      rw [List.getElem?_eq_none (by simp; omega), if_neg h1]; rfl
+
+/-- apply a chain of successive slices -/
+def sliceChain (a : Area) (chain : List (PySlice × PySlice)) : Option Area :=
+  chain.foldl (fun (acc : Option Area) p => acc.bind (fun a => sliceArea a p.1 p.2)) (some a)
+
+theorem aux_foldl_none (chain : List (PySlice × PySlice)) :
+    chain.foldl (fun (acc : Option Area) p => acc.bind (fun a => sliceArea a p.1 p.2)) none = none := by
+  induction chain with
+  | nil => rfl
+  | cons p ps ih => simpa using ih
+
+/-- **crop_offset records the cumulative offset; slicing composes like array slicing**: after any
+chain of successive slices starting from an area with `crop_offset = (0, 0)`, pixel (i, j) of the
+result sits where pixel (crop_offset + (i, j)) of the original area sits, the result stays inside
+the original, and its coordinate vectors are the successive slices of the original vectors. -/
+theorem chain_origin (g : Grid) : ∀ (chain : List (PySlice × PySlice)) (a a' : Area),
+    (∀ (i j : Rat), a.g.projX j = g.projX (a.off.2 + j) ∧ a.g.projY i = g.projY (a.off.1 + i)) →
+    a.off.1 + a.g.h ≤ g.h → a.off.2 + a.g.w ≤ g.w →
+    sliceChain a chain = some a' →
+    (∀ (i j : Rat), a'.g.projX j = g.projX (a'.off.2 + j) ∧ a'.g.projY i = g.projY (a'.off.1 + i)) ∧
+    a'.off.1 + a'.g.h ≤ g.h ∧ a'.off.2 + a'.g.w ≤ g.w ∧
+    xvec a'.g = chain.foldl (fun v p => p.2.apply v) (xvec a.g) ∧
+    yvec a'.g = chain.foldl (fun v p => p.1.apply v) (yvec a.g) := by
+  intro chain
+  induction chain with
+  | nil =>
+    intro a a' hinv h1 h2 h
+    simp only [sliceChain, List.foldl_nil, Option.some.injEq] at h
+    subst h
+    exact ⟨hinv, h1, h2, rfl, rfl⟩
+  | cons p ps ih =>
+    intro a a' hinv h1 h2 h
+    simp only [sliceChain, List.foldl_cons, Option.bind_some] at h
+    cases hs : sliceArea a p.1 p.2 with
+    | none => rw [hs, aux_foldl_none] at h; cases h
+    | some b =>
+      rw [hs] at h
+      obtain ⟨hy, hx, hw, hh, hoff, _⟩ := sliceArea_some hs
+      have hbx := aux_indices_le p.2 a.g.w
+      have hby := aux_indices_le p.1 a.g.h
+      have hvec := slice_xvec hs
+      have := ih b a' (by
+          intro i j
+          obtain ⟨c1, c2⟩ := slice_coords hs i j
+          rw [c1, c2, (hinv i _).1, (hinv _ j).2, hoff]
+          push_cast
+          constructor <;> congr 1 <;> ring)
+        (by rw [hoff, hh]; simp only; omega) (by rw [hoff, hw]; simp only; omega) h
+      obtain ⟨r1, r2, r3, r4, r5⟩ := this
+      refine ⟨r1, r2, r3, ?_, ?_⟩
+      · rw [r4, hvec.1]; rfl
+      · rw [r5, hvec.2]; rfl
+
+
+def fullSlice : PySlice := ⟨none, none⟩
+
+theorem aux_absQ_nonneg (q : Rat) : 0 ≤ absQ q := by
+  unfold absQ; split <;> linarith
+
+theorem aux_absQ_of_nonneg {q : Rat} (h : 0 ≤ q) : absQ q = q := by simp [absQ, h]
+
+theorem aux_absQ_sub_comm (a b : Rat) : absQ (a - b) = absQ (b - a) := by
+  unfold absQ
+  by_cases h1 : 0 ≤ a - b <;> by_cases h2 : 0 ≤ b - a <;> simp [h1, h2] <;> linarith
+
+theorem aux_seamTol_nonneg (a b : Grid) : 0 ≤ seamTol a b := by
+  unfold seamTol minQ
+  have := aux_absQ_nonneg (a.y1 - a.y0)
+  have := aux_absQ_nonneg (b.y1 - b.y0)
+  split <;> positivity
+
+/-- **split ∘ concat = id**, in both member orders: cutting a well-formed area after row `k`
+(`0 < k < height`) and concatenating the two parts gives back the original extent and shape. -/
+theorem split_concat_id {g : Grid} (hg : WF g) (k : Nat) (hk0 : 0 < k) (hk : k < g.h)
+    (top bot : Area)
+    (ht : sliceArea ⟨g, (0, 0)⟩ ⟨some 0, some (k : Int)⟩ fullSlice = some top)
+    (hb : sliceArea ⟨g, (0, 0)⟩ ⟨some (k : Int), none⟩ fullSlice = some bot) :
+    concatAreas top.g bot.g = some g ∧ concatAreas bot.g top.g = some g := by
+  have hdx := dx_pos hg
+  have hdy := dy_pos hg
+  have hw := w_dx hg
+  have hh := h_dy hg
+  obtain ⟨_, _, tw, th, _, tx0, tx1, ty0, ty1⟩ := sliceArea_some ht
+  obtain ⟨_, _, bw, bh, _, bx0, bx1, by0, by1⟩ := sliceArea_some hb
+  -- the slice indices
+  have i1 : (PySlice.indices ⟨some 0, some (k : Int)⟩ g.h) = (0, k) := by
+    simp only [PySlice.indices, adjustIndex]
+    have : ¬ ((k : Int) < 0) := by omega
+    have h2 : ¬ ((k : Int) ≥ g.h) := by omega
+    simp [this, h2]
+  have i2 : (PySlice.indices ⟨some (k : Int), none⟩ g.h) = (k, g.h) := by
+    simp only [PySlice.indices, adjustIndex]
+    have : ¬ ((k : Int) < 0) := by omega
+    have h2 : ¬ ((k : Int) ≥ g.h) := by omega
+    simp [this, h2]
+  have i3 : (PySlice.indices fullSlice g.w) = (0, g.w) := by simp [PySlice.indices, fullSlice]
+  simp only [i1, i2, i3] at tw th tx0 tx1 ty0 ty1 bw bh bx0 bx1 by0 by1
+  have hkq : (0 : Rat) < k := by exact_mod_cast hk0
+  have hkh : (k : Rat) < g.h := by exact_mod_cast hk
+  -- extents of the two parts in terms of the original
+  have ex0 : top.g.x0 = g.x0 := by rw [tx0]; simp only [Grid.uplx]; push_cast; ring
+  have ex1 : top.g.x1 = g.x1 := by rw [tx1]; simp only [Grid.uplx]; linarith
+  have ey1 : top.g.y1 = g.y1 := by rw [ty1]; simp only [Grid.uply]; push_cast; ring
+  have ey0 : top.g.y0 = g.y1 - k * g.dy := by rw [ty0]; simp only [Grid.uply]; ring
+  have fx0 : bot.g.x0 = g.x0 := by rw [bx0]; simp only [Grid.uplx]; push_cast; ring
+  have fx1 : bot.g.x1 = g.x1 := by rw [bx1]; simp only [Grid.uplx]; linarith
+  have fy1 : bot.g.y1 = g.y1 - k * g.dy := by rw [by1]; simp only [Grid.uply]; ring
+  have fy0 : bot.g.y0 = g.y0 := by rw [by0]; simp only [Grid.uply]; linarith
+  have hth : top.g.h = k := by omega
+  have hbh : bot.g.h = g.h - k := by omega
+  have htol := aux_seamTol_nonneg top.g bot.g
+  have htol' := aux_seamTol_nonneg bot.g top.g
+  constructor
+  · -- (top, bottom): the first test succeeds
+    unfold concatAreas
+    rw [if_neg (by omega), if_pos ⟨by rw [ex0, fx0], by rw [ex1, fx1]⟩]
+    have : isclose top.g.y0 bot.g.y1 (seamTol top.g bot.g) = true := by
+      simp only [isclose, decide_eq_true_eq, ey0, fy1, sub_self]
+      simpa [absQ] using htol
+    rw [if_pos this]
+    congr 1
+    cases hgg : g
+    cases htt : top.g
+    simp only [hgg, htt] at *
+    simp only [Grid.mk.injEq]
+    refine ⟨ex0, fy0, ex1, ey1, by omega, by omega⟩
+  · -- (bottom, top): the first test must fail, the second succeeds
+    unfold concatAreas
+    rw [if_neg (by omega), if_pos ⟨by rw [ex0, fx0], by rw [ex1, fx1]⟩]
+    have hbig : isclose bot.g.y0 top.g.y1 (seamTol bot.g top.g) = false := by
+      simp only [isclose, decide_eq_false_iff_not, not_le, fy0, ey1]
+      have h1 : absQ (g.y0 - g.y1) = g.y1 - g.y0 := by
+        rw [aux_absQ_sub_comm]; exact aux_absQ_of_nonneg (by linarith [hg.ypos])
+      rw [h1]
+      have h2 : seamTol bot.g top.g ≤ 1 / 1000000 * (k * g.dy) := by
+        unfold seamTol minQ
+        have e : absQ (top.g.y1 - top.g.y0) = k * g.dy := by
+          rw [ey1, ey0]
+          have : g.y1 - (g.y1 - k * g.dy) = k * g.dy := by ring
+          rw [this]; exact aux_absQ_of_nonneg (by positivity)
+        rw [e]
+        split
+        · rename_i hle; nlinarith
+        · linarith
+      have h3 : (k : Rat) * g.dy < g.y1 - g.y0 := by rw [← hh]; nlinarith
+      have h4 : 0 < (k : Rat) * g.dy := by positivity
+      nlinarith
+    have hclose : isclose bot.g.y1 top.g.y0 (seamTol bot.g top.g) = true := by
+      simp only [isclose, decide_eq_true_eq, ey0, fy1, sub_self]
+      simpa [absQ] using htol'
+    rw [hbig, hclose]
+    simp only [Bool.false_eq_true, if_false, if_true]
+    congr 1
+    cases hgg : g
+    cases hbb : bot.g
+    simp only [hgg, hbb] at *
+    simp only [Grid.mk.injEq]
+    refine ⟨fx0, fy0, fx1, ey1, by omega, by omega⟩
+
+/-- the defect repaired by the `fix:` commit: with numpy's default relative tolerance the two outer
+edges of a small area far from the origin count as "adjacent": a 6×4 area of 10 m pixels at
+northing 5 000 000, split after row 2 and concatenated bottom-first, came out with zero height. -/
+theorem concatOld_defect :
+    ∃ (g : Grid) (top bot : Area), WF g ∧
+      sliceArea ⟨g, (0, 0)⟩ ⟨some 0, some 2⟩ fullSlice = some top ∧
+      sliceArea ⟨g, (0, 0)⟩ ⟨some 2, none⟩ fullSlice = some bot ∧
+      concatAreasOld bot.g top.g ≠ some g := by
+  refine ⟨⟨500000, 5000000, 500060, 5000040, 6, 4⟩, _, _, ⟨by decide, by decide, by decide +kernel, by decide +kernel⟩,
+    rfl, rfl, by decide +kernel⟩
 
 end PyresampleModel.C10
